@@ -46,6 +46,8 @@ def special_inputs():
                         ", ".join(f"V{j} {{ source: X{j} }}" for j in range(n)) + " }"))
     out.append(("Error", "enum E<A, B, C, D> { V0 { source: A }, V1(#[error(source)] B, u8), V2(C), V3 { #[error(source)] x: D, y: A } }"))
     out.append(("Error", "struct S<A, B>(#[error(source)] Vec<A>, B);"))
+    out.append(("Error", "struct Bt { source: std::io::Error, backtrace: std::backtrace::Backtrace }"))
+    out.append(("Error", "enum Be { A { source: std::io::Error, #[error(backtrace)] bt: std::backtrace::Backtrace }, B(#[error(backtrace)] std::io::Error), C }"))
     # types that share their leading tokens (a printed form that includes spans tells them apart by the span first)
     for n in (2, 3, 5):
         out.append(("Error", f"enum W{n}<" + ", ".join(f"X{j}" for j in range(n)) + "> { " +
@@ -334,7 +336,19 @@ def run(chk, tier, seed, replay):
         # every fourth input is expanded twice in this process, the second time after everything else
         order = order + order[::4]
         inp = "\n".join(json.dumps(x) for x in order) + "\n"
-        p = subprocess.run([binp, "expand"], input=inp.encode(), stdout=subprocess.PIPE, stderr=subprocess.PIPE, timeout=900)
+        # the processes also differ in their ENVIRONMENT (toolchain variables, locale, time zone) and working directory:
+        # an expansion is a function of the derive input, not of where and under which wrapper the compiler runs
+        penv = dict(os.environ)
+        for var in ("RUSTC_BOOTSTRAP", "RUSTUP_TOOLCHAIN", "CARGO", "RUSTC_WRAPPER", "CARGO_PKG_NAME", "CARGO_CRATE_NAME", "PROFILE", "DEBUG"):
+            penv.pop(var, None)
+        if pid % 4 == 1:
+            penv.update({"RUSTC_BOOTSTRAP": "1", "LANG": "tr_TR.UTF-8", "LC_ALL": "tr_TR.UTF-8"})
+        elif pid % 4 == 2:
+            penv.update({"RUSTUP_TOOLCHAIN": "nightly-x86_64-unknown-linux-gnu", "TZ": "Pacific/Kiritimati", "CARGO_PKG_NAME": "other", "PROFILE": "release"})
+        elif pid % 4 == 3:
+            penv.update({"RUSTUP_TOOLCHAIN": "stable-x86_64-unknown-linux-gnu", "RUSTC_BOOTSTRAP": "0", "CARGO_CRATE_NAME": "zz", "DEBUG": "true"})
+        p = subprocess.run([binp, "expand"], input=inp.encode(), stdout=subprocess.PIPE, stderr=subprocess.PIPE, timeout=900, env=penv,
+                           cwd=["/", os.path.expanduser("~"), vlib.WORK, "/tmp"][pid % 4])
         if p.returncode != 0:
             raise vlib.ToolError(f"harness exit {p.returncode}: {p.stderr.decode()[-400:]}")
         seq = 0
